@@ -256,6 +256,86 @@ func execC14(r *run, c caseT) {
 		}
 		r.stats["fault_positions"]++
 	}
+	// a context function that panics, and one that renders the same template again (into another
+	// writer) while it is being rendered: whichever entry point is used, the same happens
+	each := func(mk func() pongo2.Context) (outs [4]string, st [4]string) {
+		run := func(k int, f func(cx pongo2.Context) (string, error)) {
+			defer func() {
+				if rr := recover(); rr != nil {
+					st[k] = "panic"
+				}
+			}()
+			o, e := f(mk())
+			outs[k] = o
+			st[k] = "ok"
+			if e != nil {
+				st[k] = "err"
+			}
+		}
+		run(0, func(cx pongo2.Context) (string, error) { return tpl.Execute(cx) })
+		run(1, func(cx pongo2.Context) (string, error) { b, e := tpl.ExecuteBytes(cx); return string(b), e })
+		run(2, func(cx pongo2.Context) (string, error) {
+			var sb strings.Builder
+			e := tpl.ExecuteWriter(cx, &sb)
+			return sb.String(), e
+		})
+		run(3, func(cx pongo2.Context) (string, error) {
+			var sb strings.Builder
+			e := tpl.ExecuteWriterUnbuffered(cx, &sb)
+			return sb.String(), e
+		})
+		return
+	}
+	for k := 1; k <= nticks && k <= 4; k++ {
+		_, st := each(func() pongo2.Context {
+			calls := 0
+			gc := ctx.goContext()
+			gc["tick"] = func() (*pongo2.Value, error) {
+				calls++
+				if calls == k {
+					var m map[string]int
+					m["boom"] = 1 // panics
+				}
+				return pongo2.AsValue("."), nil
+			}
+			return gc
+		})
+		if st[0] != st[1] || st[0] != st[2] || st[0] != st[3] {
+			r.reject(id, "the Execute variants do not behave alike when a context function panics", map[string]any{"template": src, "tick": k,
+				"outcome": map[string]string{"Execute": st[0], "ExecuteBytes": st[1], "ExecuteWriter": st[2], "ExecuteWriterUnbuffered": st[3]}})
+			return
+		}
+		inner := [2]string{}
+		invoked := 0
+		outs, st2 := each(func() pongo2.Context {
+			calls := 0
+			gc := ctx.goContext()
+			plainCtx := func() pongo2.Context {
+				pc := ctx.goContext()
+				pc["tick"] = func() (*pongo2.Value, error) { return pongo2.AsValue("."), nil }
+				return pc
+			}
+			gc["tick"] = func() (*pongo2.Value, error) {
+				calls++
+				if calls == k {
+					invoked++
+					var ib strings.Builder
+					_ = tpl.ExecuteWriterUnbuffered(plainCtx(), &ib)
+					inner[0] = ib.String()
+					inner[1], _ = tpl.Execute(plainCtx())
+				}
+				return pongo2.AsValue("."), nil
+			}
+			return gc
+		})
+		for v := 0; v < 4; v++ {
+			if st2[v] != "ok" || outs[v] != base.s || (invoked == 4 && (inner[0] != base.s || inner[1] != base.s)) {
+				r.reject(id, "rendering a template again while it is being rendered (from a context function, into another writer) disturbed one of the renderings", map[string]any{"template": src, "tick": k,
+					"variant": []string{"Execute", "ExecuteBytes", "ExecuteWriter", "ExecuteWriterUnbuffered"}[v], "outer": outs[v], "inner_unbuffered": inner[0], "inner_execute": inner[1], "expected": base.s})
+				return
+			}
+		}
+	}
 	// a context the engine rejects is rejected by every variant, with nothing written
 	for _, bad := range []string{"not an identifier", "k-ey", ""} {
 		poison, poisoned = bad, true
